@@ -387,7 +387,7 @@ impl Harness for ChainH {
                         cx.state(H64::new().u(yielded as u64).u(wire.0.borrow().consumed as u64).get());
                         if self.hold {
                             // first the items held so far …
-                            check_held(cx, &wire, &items, &held, &frames, yielded)?;
+                            check_held(cx, &wire, &|i| borrowed(&items[i]).unwrap_or("").to_string(), &held, &frames, yielded, "chain")?;
                             // … then this one joins them
                             if let Some(s) = borrowed(&it) {
                                 let consumed = wire.0.borrow().consumed;
@@ -408,7 +408,7 @@ impl Harness for ChainH {
                 }
             }
             if self.hold {
-                check_held(cx, &wire, &items, &held, &frames, yielded)?;
+                check_held(cx, &wire, &|i| borrowed(&items[i]).unwrap_or("").to_string(), &held, &frames, yielded, "chain")?;
             }
             Ok(())
         })();
@@ -444,14 +444,7 @@ impl Harness for ChainH {
     }
 }
 
-fn check_held(
-    cx: &Ctx,
-    wire: &Wire,
-    items: &[zlink_core::Result<zlink_core::reply::Result<R<'_>, E<'_>>>],
-    held: &[Held],
-    frames: &[FrameSpec],
-    now: usize,
-) -> Result<(), Verdict> {
+fn check_held(cx: &Ctx, wire: &Wire, current: &dyn Fn(usize) -> String, held: &[Held], frames: &[FrameSpec], now: usize, site_name: &str) -> Result<(), Verdict> {
     let w = wire.0.borrow();
     for hd in held {
         let site = if hd.rest_already_read { "with-no-new-data" } else { "" };
@@ -462,7 +455,7 @@ fn check_held(
         }
         if alloclog::freed_since(hd.alloc_mark, hd.ptr, hd.len.max(1)) {
             cx.soft_fail(
-                format!("borrow:chain:held-item-freed-by-buffer-growth{site}"),
+                format!("borrow:{site_name}:held-item-freed-by-buffer-growth{site}"),
                 format!(
                     "item #{} (a {}-byte &str at {:#x}) was yielded and is still held; by the time item/end #{now} was obtained the buffer it points into had been released (reallocated by growth): use after free. frames: {:?}",
                     hd.idx,
@@ -478,7 +471,7 @@ fn check_held(
             if r.n > 0 && r.ptr < hd.ptr + hd.len && hd.ptr < r.ptr + r.n {
                 overwritten = true;
                 cx.soft_fail(
-                    format!("borrow:chain:held-item-overwritten-by-later-read{site}"),
+                    format!("borrow:{site_name}:held-item-overwritten-by-later-read{site}"),
                     format!(
                         "item #{} (a {}-byte &str at {:#x}) was yielded and is still held; a later transport read wrote {} bytes at {:#x}, over it, before item/end #{now} was obtained. frames: {:?}",
                         hd.idx,
@@ -496,15 +489,127 @@ fn check_held(
             continue;
         }
         // neither released nor written by the transport: safe code reads the held value
-        let cur = borrowed(&items[hd.idx]).unwrap_or("");
+        let cur = current(hd.idx);
         if cur != hd.copy {
             cx.soft_fail(
-                format!("borrow:chain:held-item-content-changed{site}"),
+                format!("borrow:{site_name}:held-item-content-changed{site}"),
                 format!("item #{} read `{}` when yielded and reads `{}` after item/end #{now}", hd.idx, hd.copy.chars().take(40).collect::<String>(), cur.chars().take(40).collect::<String>()),
             );
         }
     }
     Ok(())
+}
+
+// ------------------------------------------------------------------------------------------------
+// C11, second call site: the stream a `#[zlink(more)]` proxy method returns
+
+#[zlink_core::proxy(interface = "a", crate = "zlink_core")]
+trait WatchProxy {
+    #[zlink(more)]
+    async fn watch(&mut self, id: u32) -> zlink_core::Result<impl Stream<Item = zlink_core::Result<Result<R<'_>, E<'_>>>>>;
+}
+
+struct ProxyStreamH {
+    max_replies: usize,
+    sizes: Vec<usize>,
+}
+
+impl Harness for ProxyStreamH {
+    fn run(&self, cx: &Ctx) -> Verdict {
+        let n = 2 + cx.choose(self.max_replies - 1, "replies-2");
+        let mut frames = Vec::new();
+        for i in 0..n {
+            let size = self.sizes[cx.choose(self.sizes.len(), "reply:payload-size")];
+            frames.push(success_frame(i as u32 + 1, size, Some(i + 1 < n)));
+        }
+        let mut stream_bytes = Vec::new();
+        let mut ends = Vec::new();
+        for f in &frames {
+            stream_bytes.extend_from_slice(&f.bytes);
+            stream_bytes.push(0);
+            ends.push(stream_bytes.len());
+        }
+        // every subset of the inter-frame cuts
+        let mut cuts = Vec::new();
+        for e in &ends[..ends.len() - 1] {
+            if cx.choose(2, "cut:inter-frame") == 1 {
+                cuts.push(*e);
+                cx.goal("replies-in-separate-reads");
+            }
+        }
+        if cuts.is_empty() {
+            cx.goal("replies-coalesced-in-one-read");
+        }
+        cx.log(|| format!("proxy `more` method; server sends {n} replies: {} ; arrival cuts at {cuts:?}", show(&stream_bytes)));
+        let wire = Wire::new(0, Some(cx.clone()));
+        wire.0.borrow_mut().log_reads = true;
+        let mut chunks: std::collections::VecDeque<Vec<u8>> = std::collections::VecDeque::new();
+        let mut prev = 0;
+        for c in cuts.iter().chain(std::iter::once(&stream_bytes.len())) {
+            chunks.push_back(stream_bytes[prev..*c].to_vec());
+            prev = *c;
+        }
+        let mut arrived = 0;
+        deliver(&wire, &mut chunks, &mut arrived);
+        let mut conn: Conn = wire.connection();
+        alloclog::start();
+        let verdict: Result<u64, Verdict> = (|| {
+            let stream = complete(conn.watch(7)).map_err(|e| Verdict::fail("proxy-stream:call-failed", format!("{e:?}")))?;
+            let mut stream = std::pin::pin!(stream);
+            let mut task = Task::new();
+            let mut items: Vec<zlink_core::Result<Result<R<'_>, E<'_>>>> = Vec::new();
+            let mut held: Vec<Held> = Vec::new();
+            let mut h = H64::new();
+            let get = |items: &Vec<zlink_core::Result<Result<R<'_>, E<'_>>>>, i: usize| -> String {
+                match &items[i] {
+                    Ok(Ok(r)) => r.s.to_string(),
+                    _ => String::new(),
+                }
+            };
+            for k in 0..n {
+                let mut guard = 0;
+                let item = loop {
+                    match task.poll_with(|c| stream.as_mut().poll_next(c)) {
+                        Poll::Ready(x) => break x,
+                        Poll::Pending => {
+                            guard += 1;
+                            if guard > 10_000 {
+                                xplore::bug!("proxy stream woke itself 10000 times");
+                            }
+                            if !task.woken() && !deliver(&wire, &mut chunks, &mut arrived) {
+                                return Err(Verdict::fail("proxy-stream:stalled", format!("item {k} of {n} never came")));
+                            }
+                        }
+                    }
+                };
+                let Some(it) = item else { return Err(Verdict::fail("proxy-stream:ended-early", format!("stream ended after {k} of {n} items"))) };
+                let got = match &it {
+                    Ok(Ok(r)) => format!("item n={} s={}b", r.n, r.s.len()),
+                    other => format!("{other:?}"),
+                };
+                cx.log(|| format!("stream: item #{k}: {got}"));
+                if !matches!(&it, Ok(Ok(r)) if r.s == frames[k].payload && r.n == k as u32 + 1) {
+                    return Err(Verdict::fail("proxy-stream:wrong-item", format!("item #{k}: {got}")));
+                }
+                h.s(&got);
+                check_held(cx, &wire, &|i| get(&items, i), &held, &frames, k, "proxy-stream")?;
+                if let Ok(Ok(r)) = &it {
+                    held.push(Held { idx: k, ptr: r.s.as_ptr() as usize, len: r.s.len(), copy: frames[k].payload.clone(), alloc_mark: alloclog::mark(), reads_mark: wire.0.borrow().reads.len(), rest_already_read: wire.0.borrow().consumed >= stream_bytes.len() });
+                }
+                items.push(it);
+            }
+            check_held(cx, &wire, &|i| get(&items, i), &held, &frames, n, "proxy-stream")?;
+            Ok(h.get())
+        })();
+        alloclog::stop();
+        if alloclog::overflowed() {
+            xplore::bug!("allocation log overflowed");
+        }
+        match verdict {
+            Ok(h) => Verdict::Pass(h),
+            Err(v) => v,
+        }
+    }
 }
 
 pub fn run_c06(tier: Tier) -> i32 {
@@ -566,10 +671,17 @@ pub fn run_c11(tier: Tier) -> i32 {
         let cfg = Config { budget, max_wall: wall, ..Default::default() };
         rep.add(explore(name, h.config(), &h, &cfg));
     }
+    let ps = ProxyStreamH { max_replies: tier.pick(3, 5), sizes: tier.pick(vec![20, 300], vec![20, 200, 300, 600]) };
+    let cfg = Config { max_wall: wall, ..Default::default() };
+    rep.add(explore("proxy-more-method/hold", json!({"proxy_stream": true, "max_replies": ps.max_replies, "sizes": ps.sizes}), &ps, &cfg));
     rep.finish()
 }
 
 pub fn replay(v: &Value) -> Replayed {
+    if v["harness"]["proxy_stream"] == true {
+        let h = ProxyStreamH { max_replies: v["harness"]["max_replies"].as_u64().unwrap_or(3) as usize, sizes: v["harness"]["sizes"].as_array().map(|a| a.iter().map(|x| x.as_u64().unwrap_or(20) as usize).collect()).unwrap_or_else(|| vec![20, 300]) };
+        return replay_dfs(&h, v);
+    }
     match ChainH::from_config(&v["harness"]) {
         Some(h) => replay_dfs(&h, v),
         None => Replayed::Error("cannot rebuild the chain harness from the replay file".into()),
